@@ -349,6 +349,17 @@ def verify(data, keymode, with_ca=False):
     return world, delivered, reasons
 
 
+
+def same_layout(data, alt):
+    """Do the altered octets still parse, as plain CBOR, into the same top-level items at the same places
+    (the primary block and every other block where they were)?"""
+    try:
+        (_i1, e1, info1) = C.load(bytes(data), 0)
+        (_i2, e2, info2) = C.load(bytes(alt), 0)
+    except C.DecodeError:
+        return False
+    return e1 == e2 and isinstance(info1, dict) and isinstance(info2, dict) and info1.get('spans') == info2.get('spans')
+
 def classify(orig, alt_bytes):
     '''Oracle verdict for altered octets: 'undecodable', 'crc', 'not-local',
     'must-fail', 'must-verify' or 'either'.'''
@@ -556,6 +567,10 @@ def run_source(params, known):
             viol('integrity-block-does-not-name-the-configured-targets', dict(), 'targets on the wire %r, blocks of the configured types %r' % (got_nums, want_nums),
                  data, 'none')
 
+    # is the primary block among what this integrity block covers?  (an ordinary change of its lifetime says so)
+    probe = [e for e in field_edits(orig) if e[0] == 'primary-lifetime']
+    primary_covered = bool(probe) and classify(orig, probe[0][1])[0] == 'must-fail'
+
     def judge(alt_bytes, what, keymode):
         (verdict, alt) = classify(orig, alt_bytes) if alt_bytes != data else ('must-verify', orig)
         if keymode != right and verdict in ('must-verify', 'either') and alt_bytes == data:
@@ -572,7 +587,12 @@ def run_source(params, known):
             if delivered:
                 viol('corrupted-bundle-delivered', dict(verdict=verdict), '%r' % (what,), alt_bytes, what)
         elif verdict == 'undecodable':
-            pass
+            # one bit of a covered primary block turned it into something that is no RFC 9171 bundle (an endpoint ID the
+            # scheme does not allow, say): whatever the receiver makes of it, it is not the primary block that was bound in
+            if delivered and primary_covered and keymode == right and str(what).startswith('bit ') \
+                    and orig['primary']['span'][0] * 8 <= int(str(what)[4:]) < orig['primary']['span'][1] * 8 and same_layout(data, alt_bytes):
+                viol('altered-bundle-verified', dict(primary_block='no longer RFC 9171'),
+                     'alteration %r of the covered primary block, yet the bundle was delivered' % (what,), alt_bytes, what)
         elif verdict == 'must-fail':
             if delivered:
                 viol('altered-bundle-verified', dict(), 'alteration %r changes what the integrity block covers, yet the bundle was delivered' % (what,), alt_bytes, what)
